@@ -18,11 +18,11 @@ from sim import simplify
 
 PROPS = {
     # prop: (quick runs, thorough runs, quick budget s, thorough budget s)
-    'C09': (900, 40000, 70, 900),
-    'C11': (1500, 60000, 60, 900),
-    'C12': (700, 30000, 70, 900),
-    'C14': (700, 30000, 80, 900),
-    'C16': (800, 30000, 70, 900),
+    'C09': (4000, 150000, 100, 1500),
+    'C11': (6000, 250000, 100, 1500),
+    'C12': (3000, 120000, 100, 1500),
+    'C14': (2500, 100000, 100, 1500),
+    'C16': (3500, 120000, 100, 1500),
 }
 
 LEVEL = 'exploration'
@@ -55,8 +55,10 @@ def log(*a):
 
 
 def main(argv):
+  if len(argv) >= 2 and argv[1] == 'selftest-determinism':
+    return selftest_determinism(argv[2:] or list(PROPS))
   if len(argv) < 2 or argv[1] not in PROPS:
-    log('usage: check <%s> [--replay file]' % '|'.join(PROPS))
+    log('usage: check <%s> [--replay file] | check selftest-determinism [props]' % '|'.join(PROPS))
     return 2
   prop = argv[1]
   tier = os.environ.get('VERIF_TIER', 'quick')
@@ -76,6 +78,51 @@ def main(argv):
     return 2
   finally:
     shutil.rmtree(scratch, ignore_errors=True)
+
+
+def selftest_determinism(props):
+  """N seeds x {16 jobs, 2 jobs in fresh zygotes, other hash-seed class, freshly exec'd
+  interpreter}: per-step event logs must be identical."""
+  seed = int(os.environ.get('VERIF_SEED', '1') or 1)
+  n = int(os.environ.get('VERIF_RUNS', '64') or 64)
+  n_exec = int(os.environ.get('VERIF_EXEC_RUNS', '3') or 3)
+  bad = 0
+  for prop in props:
+    digests = {}
+    for jobs, swap in ((16, False), (2, True)):
+      scratch = tempfile.mkdtemp(prefix='aeqsim-det-')
+      eng = orch.Engine(prop, seed, jobs, scratch)
+      try:
+        items = []
+        for i in range(n):
+          rs = core.run_seed(seed, prop, i)
+          a, b = core.classes_for_run(rs)
+          items.append((i, {'prop': prop, 'rseed': rs, 'tier': 'quick'}, (b, a) if swap else (a, b)))
+        res = eng.run_many(items)
+        digests[(jobs, swap)] = {i: (v.result['log_digest'] if v.status == 'ok' else v.status)
+                                 for i, v in res.items()}
+        if not swap:
+          docs = {i: v.doc for i, v in res.items() if v.status == 'ok'}
+          hs = eng.pool.hash_seeds
+      finally:
+        eng.close()
+        shutil.rmtree(scratch, ignore_errors=True)
+    a, b = digests[(16, False)], digests[(2, True)]
+    diff = [i for i in range(n) if a[i] != b[i]]
+    scratch = tempfile.mkdtemp(prefix='aeqsim-det-')
+    ex_diff = []
+    try:
+      for i in list(docs)[:n_exec]:
+        r = orch.oneshot(prop, 1 + hs[0] % 1000003, 'run', {'prop': prop, 'doc': docs[i]}, scratch)
+        if r['log_digest'] != a[i]:
+          ex_diff.append(i)
+    finally:
+      shutil.rmtree(scratch, ignore_errors=True)
+    log('%s: %d seeds, 16 jobs vs 2 jobs in fresh zygotes under the other hash-seed class: %d differ; '
+        '%d re-executed in a freshly exec\'d interpreter under a third hash seed: %d differ'
+        % (prop, n, len(diff), min(n_exec, len(docs)), len(ex_diff)))
+    bad += len(diff) + len(ex_diff)
+  return 0 if bad == 0 else 2
 
 
 def replay(prop, path, scratch):
@@ -140,6 +187,7 @@ def sweep(prop, tier, seed, jobs, scratch):
     violators = {}
     harness_notes = []
     samples = []
+    exec_samples = []
     deadline = t_start + budget
 
     def on_done(v):
@@ -160,6 +208,8 @@ def sweep(prop, tier, seed, jobs, scratch):
       if res['nontrivial']:
         agg['nontrivial_sigs'].add(res['sig'])
       agg['states'].update(res['states'])
+      if len(exec_samples) < 8 and res['nontrivial'] and res['steps'] <= 12:
+        exec_samples.append((v.doc, (res['log_digest'], v.classes)))
       if len(samples) < 3 and res['nontrivial']:
         samples.append({'run_index': v.key, 'run_seed': v.doc['run_seed'],
                         'world': v.doc.get('world'), 'knobs': v.doc.get('knobs'),
@@ -269,6 +319,22 @@ def sweep(prop, tier, seed, jobs, scratch):
     if stuck:
       log('warning: probes stuck at zero: %s' % stuck)
 
+    # ---- fork-vs-exec sample: re-execute a few runs (and their references) in freshly
+    # exec'd interpreters; the forked stand-in must not hide anything
+    n_exec = int(os.environ.get('VERIF_EXEC_RUNS') or (1 if tier == 'quick' else 6))
+    exec_checked, exec_mismatch = 0, 0
+    if not violators and exit_code == 0:
+      for doc, want in exec_samples[:n_exec]:
+        d = dict(doc)
+        d['hash_seeds'] = {'sut': eng.pool.hash_seeds[want[1][0]], 'ref': eng.pool.hash_seeds[want[1][1]]}
+        fv, fres = orch.replay_fresh(prop, d, scratch, max_obligations=2)
+        exec_checked += 1
+        if fres['log_digest'] != want[0] or fv:
+          exec_mismatch += 1
+          log('HARNESS-ERROR: run %s differs when re-executed in freshly exec\'d interpreters (%s)'
+              % (doc['run_seed'], [x['cls'] for x in fv]))
+          exit_code = 2
+      log('fork-vs-exec sample: %d runs re-executed in fresh interpreters, %d differ' % (exec_checked, exec_mismatch))
     if reported > 0:
       # a replay-confirmed violation is the answer; harness complaints above stay as warnings
       exit_code = 1
@@ -298,6 +364,8 @@ def sweep(prop, tier, seed, jobs, scratch):
             'harness_errors': agg['harness_error'],
             'determinism_sample': {'runs_executed_twice': det_compared,
                                    'log_digest_mismatches': len(det_mismatch)},
+            'fork_vs_exec_sample': {'runs_reexecuted_in_fresh_interpreters': exec_checked,
+                                    'differ': exec_mismatch},
             'hash_seeds': eng.pool.hash_seeds,
             'known_findings_met': list(known_hits.keys()),
             'components_real': real, 'components_stub': stub,
